@@ -1,6 +1,11 @@
 package hdoracle
 
-// Reverse tables: compressed public key -> where it sits in a key tree.
+// Reverse tables: compressed public key -> where it sits in a key tree.  The
+// harness fills one table with the keys the specification (spec.go) assigns to
+// the paths of a case - and nothing else - and uses it to NAME the keys the
+// wallet hands out.  A second table of the same type may hold the keys a
+// wallet would make if it deviated from the rule table at some hardened step;
+// it only serves to word the violation report.
 
 // Step is one derivation step (child number below 2^31, hardened flag).
 type Step struct {
@@ -15,10 +20,9 @@ type Entry struct {
 	Path []Step
 	Priv []byte // ser256 of the private key, nil if only the public key is derivable
 	Pub  [33]byte
-	// Alt is non-empty when the key is only reached by using, at some hardened
-	// step, the other rule than the one btcsuite effectively applies there
-	// (possible only when an intermediate private key has a leading zero byte).
-	Alt string
+	// Note is empty in the specification table; in a diagnostic table it says
+	// which deviation from the rule table yields this key.
+	Note string
 }
 
 // Table maps public keys to entries.
@@ -28,6 +32,9 @@ type Table struct {
 
 // NewTable returns an empty table.
 func NewTable() *Table { return &Table{m: map[[33]byte]*Entry{}} }
+
+// Len is the number of keys.
+func (t *Table) Len() int { return len(t.m) }
 
 // Lookup returns the entry of a compressed public key, or nil.
 func (t *Table) Lookup(pub33 []byte) *Entry {
@@ -40,84 +47,39 @@ func (t *Table) Lookup(pub33 []byte) *Entry {
 }
 
 func (t *Table) add(e *Entry) {
-	if old, ok := t.m[e.Pub]; ok && old.Alt == "" {
-		return // the primary derivation wins
+	if _, ok := t.m[e.Pub]; ok {
+		return // first registration wins
 	}
 	t.m[e.Pub] = e
 }
 
-// AddKey registers a single key (imported private key).
-func (t *Table) AddKey(root string, id uint64, k *Key) {
-	e := &Entry{Root: root, ID: id, Pub: k.Pub}
+// AddKey registers a single key.
+func (t *Table) AddKey(root string, id uint64, path []Step, k *Key, note string) {
+	e := &Entry{Root: root, ID: id, Path: append([]Step{}, path...), Pub: k.Pub, Note: note}
 	if k.Priv != nil {
 		e.Priv = k.PrivBytes()
 	}
 	t.add(e)
 }
 
-// AddAccount registers children branch/index of an account key for the given
-// branches and indices 0..maxIndex.
-func (t *Table) AddAccount(root string, id uint64, prefix []Step, acct *Key, alt string,
+// AddAccount registers the unhardened children branch/index of an account key
+// for the given branches and indices 0..maxIndex (both rules coincide there).
+func (t *Table) AddAccount(root string, id uint64, prefix []Step, acct *Key, note string,
 	branches []uint32, maxIndex uint32) error {
 
 	for _, b := range branches {
-		bk, err := acct.Child(b, Legacy)
+		bk, err := acct.Child(b, Standard)
 		if err != nil {
 			return err
 		}
 		for i := uint32(0); i <= maxIndex; i++ {
-			ck, err := bk.Child(i, Legacy)
+			ck, err := bk.Child(i, Standard)
 			if err != nil {
-				continue // invalid child: the wallet skips it too
+				continue // invalid child (2^-127): the wallet skips it too
 			}
 			p := append(append([]Step{}, prefix...), Step{b, false}, Step{i, false})
-			e := &Entry{Root: root, ID: id, Path: p, Pub: ck.Pub, Alt: alt}
-			if ck.Priv != nil {
-				e.Priv = ck.PrivBytes()
-			}
-			t.add(e)
+			t.AddKey(root, id, p, ck, note)
 		}
 	}
 	return nil
-}
-
-// Variant is one way of walking a hardened path.
-type Variant struct {
-	Key *Key
-	Alt string // "" = the effective rule at every step
-}
-
-// HardenedPath derives master/steps... with every step hardened.  rules[i] is
-// the rule btcsuite effectively applies at step i (DeriveNonStandard pads a key
-// whose in-memory bytes lost their leading zeros on the wrong side; a key that
-// was just created by NewMaster or parsed from its serialization still has all
-// 32 bytes, and the step is then the standard one).  The first variant follows
-// rules throughout; further variants (only when a parent private key has a
-// leading zero byte, the only case in which the two rules differ) use the other
-// rule at some steps.
-func HardenedPath(master *Key, steps []uint32, rules []Rule) ([]Variant, error) {
-	cur := []Variant{{Key: master}}
-	for depth, s := range steps {
-		var next []Variant
-		for _, v := range cur {
-			k, err := v.Key.Child(s+HardenedStart, rules[depth])
-			if err != nil {
-				return nil, err
-			}
-			next = append(next, Variant{Key: k, Alt: v.Alt})
-			if v.Key.LeadingZero() {
-				other, name := Standard, "std@"
-				if rules[depth] == Standard {
-					other, name = Legacy, "legacy@"
-				}
-				k2, err := v.Key.Child(s+HardenedStart, other)
-				if err != nil {
-					return nil, err
-				}
-				next = append(next, Variant{Key: k2, Alt: v.Alt + name + string(rune('0'+depth))})
-			}
-		}
-		cur = next
-	}
-	return cur, nil
 }
